@@ -3,7 +3,9 @@
 (* Conformance binding of KeyFormats.tla (C12).  TLC reads ndjson records  *)
 (* and writes one answer per record.                                       *)
 (*                                                                         *)
-(*  gen    key, fmts        -> Export(key, fmt) for every fmt (payload     *)
+(*  gen    key, hist, fmts  -> Export(After(key, hist), fmt) for every fmt *)
+(*                             (hist: earlier calls on the same object;    *)
+(*                             payload                                     *)
 (*                             level for Base58Check forms) + the deviant  *)
 (*                             payload of a named export deviation         *)
 (*  str    [payload, chk]*  -> Base58 strings (chk = sha256d(payload)[:4], *)
@@ -17,10 +19,12 @@ EXTENDS KeyFormats, Json, IOUtils, TLC
 
 Recs == ndJsonDeserialize(IOEnv.IN_FILE)
 
+\* "undef": the key (after its history) has no such representation (e.g. segwit extended key moved to dogecoin)
 GenOne(k, fmt) ==
-    LET e == Export(k, fmt) IN
-    [fmt |-> fmt, t |-> e.t, v |-> e.v, w |-> e.w,
-     dv |-> IF fmt = "xpub" /\ ~k.compressed THEN XPayloadUnc(k) ELSE <<>>]
+    IF ~CanExport(k, fmt) THEN [fmt |-> fmt, t |-> "undef", v |-> <<>>, w |-> <<>>, dv |-> <<>>]
+    ELSE LET e == Export(k, fmt) IN
+         [fmt |-> fmt, t |-> e.t, v |-> e.v, w |-> e.w,
+          dv |-> IF fmt = "xpub" /\ ~k.compressed THEN XPayloadUnc(k) ELSE <<>>]
 
 Res(r, o) ==
     [ok |-> o.ok, priv |-> o.priv, sec |-> r.pool[o.sec], sec2 |-> r.pool[o.sec2], sec3 |-> r.pool[o.sec3],
@@ -49,7 +53,9 @@ ImportFails(r) ==
 
 Answer(r) ==
   CASE r.k = "gen" ->
-         [v |-> "ok", dev |-> "", exp |-> [i \in 1..Len(r.fmts) |-> GenOne(r.key, r.fmts[i])]]
+         \* r.hist: calls made on the object before the export; the representations are those of After(key, hist)
+         LET a == After(r.key, r.hist) IN
+         [v |-> "ok", dev |-> "", after |-> a, exp |-> [i \in 1..Len(r.fmts) |-> GenOne(a, r.fmts[i])]]
     [] r.k = "str" ->
          [v |-> "ok", dev |-> "", exp |-> [i \in 1..Len(r.items) |-> B58String(r.items[i][1], r.items[i][2])]]
     [] r.k = "judge" ->
